@@ -177,7 +177,7 @@ def register(reg):
                "list[real:reward] r where owner(r) in path and owner(r).rewards is r",
                "*HOO_node.u_value", "*HOO_node.b_value", "*HOO_node.mean_reward", "self.iteration",
                "path[len(path) - 1].children", "self.partition.depth", "list(self.partition.node_list)",
-               "list(self.partition.node_list[path[len(path) - 1].depth + 1]) if path[len(path) - 1].depth < self.partition.depth"]
+               "list(self.partition.node_list[path[len(path) - 1].depth + 1]) when path[len(path) - 1].depth < self.partition.depth"]
     fn("T_HOO.updateAllTree", N=N, props="C01 C03 C04 C05 C06", params={"path": "list[ref:$N]", "reward": "real"},
        requires=INV + [("path", "PathOK(self.partition, path)", "C04 C03"),
                        ("leaf", "path[len(path) - 1].children is None", "C03 C06"),
